@@ -53,13 +53,14 @@ pub struct Args<'g> {
     pub index: Option<usize>,
     pub forced_rt: Option<u32>,          // result type to use (a declared 64-bit type for *_bit64)
     pub forced_lits: Vec<u32>,           // values the next lit32() calls return
+    pub forced_words: Option<Vec<u32>>,  // what the next words() call returns (variadic id lists)
     last_enum: Option<(String, u32)>,
     omitted: bool,   // an optional argument was omitted: "optional ones only as a trailing run"
 }
 impl<'g> Args<'g> {
     pub fn new(g: &'g Gram, seed: u64) -> Args<'g> {
         Args { g, rng: Rng::new(seed), counter: 5000, flat: vec![], rt: None, explicit_rid: None, rid_used: false,
-               ip: json!(["End"]), index: None, forced_rt: None, forced_lits: vec![], last_enum: None, omitted: false }
+               ip: json!(["End"]), index: None, forced_rt: None, forced_lits: vec![], forced_words: None, last_enum: None, omitted: false }
     }
     pub fn reset(&mut self) {
         self.flat.clear(); self.rt = None; self.rid_used = false; self.last_enum = None; self.omitted = false;
@@ -90,7 +91,10 @@ impl<'g> Args<'g> {
     }
     pub fn opt_string(&mut self) -> Option<String> { if !self.omit() { Some(self.string()) } else { None } }
     fn count(&mut self, n: usize) -> usize { if self.omitted { 0 } else { self.rng.below(n) } }
-    pub fn words(&mut self) -> Vec<u32> { (0..self.count(4)).map(|_| self.word()).collect() }
+    pub fn words(&mut self) -> Vec<u32> {
+        if let Some(ws) = self.forced_words.take() { for w in &ws { self.flat_w(*w); } return ws; }
+        (0..self.count(4)).map(|_| self.word()).collect()
+    }
     pub fn lits(&mut self) -> Vec<u32> { (0..self.count(4)).map(|_| self.lit32()).collect() }
     pub fn pairs_ww(&mut self) -> Vec<(u32, u32)> { (0..self.count(3)).map(|_| (self.word(), self.word())).collect() }
     pub fn pairs_wl(&mut self) -> Vec<(u32, u32)> { (0..self.count(3)).map(|_| (self.word(), self.lit32())).collect() }
@@ -354,6 +358,68 @@ fn random_history(g: &Gram, out: &mut Out, seed: u64, table: &Value, len: usize)
     finish_event(s, out, Some((1, 4)));
 }
 
+/// C13: id discipline under failing calls, and type de-duplication over every type method
+fn suite_ids(g: &Gram, out: &mut Out, seed: u64, table: &Value) {
+    let mut k = 0u64;
+    for name in METHODS.iter() {
+        let kind = table[*name]["kind"].as_str().unwrap_or("");
+        k += 1;
+        if kind == "type" || kind == "type_id" {
+            // same request twice (must be deduplicated when implicit), then a different one, then an id
+            let mut s = new_session(g, out, if k % 3 == 0 { "from_module" } else { "new" }, seed + k);
+            for round in 0..3 {
+                let (c, r) = (s.a.counter, Rng::new(seed + k + if round == 2 { 77 } else { 0 }));
+                s.a.rng = r;
+                if round < 2 { s.a.counter = 5000; } else { s.a.counter = c; }
+                s.a.explicit_rid = None;
+                if kind == "type_id" && round == 1 && k % 2 == 0 {
+                    let id = s.b.id();
+                    out.ev(json!({"ev": "bcall", "m": "id", "rt": [], "rid_explicit": [], "rid_param": false, "ip": ["End"], "idx": [], "flat": [], "res": ["Ok", jw(id)],
+                                  "selF": j_sel(s.b.selected_function()), "selB": j_sel(s.b.selected_block()), "module": [j_module(s.b.module_ref())]}));
+                    s.a.explicit_rid = Some(id);
+                }
+                logged_call(&mut s, out, name, true);
+            }
+            s.a.explicit_rid = None;
+            logged_call(&mut s, out, "id", true);
+            finish_event(s, out, None);
+        } else if matches!(kind, "block" | "insert_block" | "term" | "insert_term") {
+            // fail first (no block selected), with and without an explicit result id; ids handed out afterwards must still be fresh
+            let mut s = new_session(g, out, "new", seed + k);
+            logged_call(&mut s, out, "id", true);
+            if k % 2 == 0 {
+                let id = s.b.id();
+                out.ev(json!({"ev": "bcall", "m": "id", "rt": [], "rid_explicit": [], "rid_param": false, "ip": ["End"], "idx": [], "flat": [], "res": ["Ok", jw(id)],
+                              "selF": j_sel(s.b.selected_function()), "selB": j_sel(s.b.selected_block()), "module": [j_module(s.b.module_ref())]}));
+                s.a.explicit_rid = Some(id);
+            }
+            logged_call(&mut s, out, name, true);
+            s.a.explicit_rid = None;
+            logged_call(&mut s, out, "id", true);
+            logged_call(&mut s, out, "begin_function", true);
+            logged_call(&mut s, out, "begin_block", true);
+            logged_call(&mut s, out, name, true);
+            logged_call(&mut s, out, "id", true);
+            if s.b.selected_block().is_some() { logged_call(&mut s, out, "ret", true); }
+            logged_call(&mut s, out, "end_function", true);
+            finish_event(s, out, None);
+        }
+    }
+    // variable-arity type requests whose operand lists are prefixes / extensions of one another
+    for (method, fixed) in [("type_struct", 0usize), ("type_function", 1)] {
+        let mut s = new_session(g, out, "new", seed);
+        let lists: Vec<Vec<u32>> = vec![vec![11, 12], vec![11], vec![11, 12], vec![11, 12, 13], vec![], vec![12, 11], vec![11], vec![]];
+        for l in lists {
+            s.a.counter = 5000; // the fixed (non-variadic) arguments stay the same
+            let _ = fixed;
+            s.a.forced_words = Some(l);
+            logged_call(&mut s, out, method, true);
+        }
+        logged_call(&mut s, out, "id", true);
+        finish_event(s, out, None);
+    }
+}
+
 pub fn drive(args: &[String]) {
     let g = Gram::load(arg(args, "--grammar").expect("--grammar"));
     let table: Value = serde_json::from_reader(std::fs::File::open(arg(args, "--methods").expect("--methods")).unwrap()).unwrap();
@@ -362,6 +428,7 @@ pub fn drive(args: &[String]) {
     let mut histories = 0;
     match arg(args, "--suite").unwrap_or("methods") {
         "methods" => { suite_methods(&g, &mut out, seed, &table); }
+        "ids" => { suite_ids(&g, &mut out, seed, &table); }
         "histories" => {
             let f = std::io::BufReader::new(std::fs::File::open(arg(args, "--histories").expect("--histories")).unwrap());
             for (k, line) in f.lines().enumerate() {
